@@ -29,6 +29,7 @@ ASSUMPTIONS = [
     "run-steps applies its one settings dictionary at every step of the call (as the handler does)",
     "a Python session is started without explicit start/dt (defaults to the scenario's run specs)",
     "steps requested beyond the stop time yield 'Stoptime reached' messages, which are not results",
+    "graphical functions are only looked up inside flows/converters (elements with their own memo), not inline in a stock equation",
 ]
 
 
@@ -36,7 +37,7 @@ def _schedule(case):
     """grid index -> settings, following the partition"""
     sched = []
     k = 0
-    n = case["model"]["n"]
+    n = _abstract(case)["n"]
     for call in case["calls"]:
         kind = call[0]
         st_ = call[-1]
@@ -55,6 +56,10 @@ def _schedule(case):
     return sched
 
 
+def _abstract(case):
+    return case["model"] if case.get("model_kind") == "sd" else c04.to_abstract(case["model"])
+
+
 def _flatten_step(res, sm, sc):
     """{eq: {t: v}} or flat {eq: v}"""
     return res[sm][sc]
@@ -65,7 +70,7 @@ def check_case(case):
 
     info = {"status": "ok"}
     vs = []
-    abstract = c04.to_abstract(case["model"])
+    abstract = _abstract(case)
     names_all = SM.element_names(abstract)
     eqs = [names_all[i % len(names_all)] for i in case["eqs"]]
     eqs = list(dict.fromkeys(eqs))
@@ -116,7 +121,7 @@ def check_case(case):
             if not ok:
                 return info, vs
         # ---- python session -------------------------------------------------
-        b.reset_scenario_cache(scenario_manager=sm, scenario=sc)
+        # no manual cache reset here: begin_session documents that it resets the cache of the scenarios of the session
         b.begin_session(scenarios=[sc], scenario_managers=[sm], equations=eqs)
         got = {eq: ([], []) for eq in eqs}
         k = 0
@@ -268,16 +273,36 @@ def check_case(case):
 def case_strategy():
     @st.composite
     def build(draw):
-        model = draw(c04.sf_strategy(8))
-        if not any(a["kind"] == "gf" for a in model["aux"]):
-            model["aux"].insert(0, {"kind": "gf", "name": "g99", "input": ["time"], "ypts": [0.0, 2.0, 1.0], "xmin": 0.0, "xmax": 4.0})
+        model_kind = draw(st.sampled_from(["sf", "sd"]))
+        if model_kind == "sd":
+            # DSL-only vocabulary: delays (lagged reads of constants and elements), named lookups, step, time
+            # (no built-ins directly inside stock equations: a lookup there is not an element of its own, so whether a points
+            #  change at step k reaches the rate of interval k-1..k is not fixed by the statement)
+            model = draw(SM.model_strategy(max_n=8, allow={"lookup", "delay", "step", "time"}, stock_builtins=False,
+                                           runspecs=[("0", "1"), ("1", "0.5"), ("2.5", "0.25"), ("0", "0.1"), ("1", "0.2"), ("1", "1")]))
+            if not model["points"]:
+                model["points"]["p0"] = [[0.0, 0.0], [2.0, 2.0], [4.0, 1.0]]
+                model["aux"].insert(0, {"kind": "converter", "name": "c99", "eq": ["lookup", ["time"], "p0"]})
+            # a lagged read of a constant: the value reported for the constant at an earlier step must be the value consumed later
+            k0 = model["constants"][0]["name"]
+            model["aux"].insert(0, {"kind": "converter", "name": "kc", "eq": ["ref", k0]})
+            model["aux"].insert(1, {"kind": "converter", "name": "klag", "eq": ["delay", "kc", 2, None]})
             fl = next(a for a in model["aux"] if a["kind"] in ("flow", "biflow"))
-            fl["eq"] = ["bin", "+", fl["eq"], ["ref", "g99"]]
-        model["dt_spec"] = draw(st.sampled_from([{"dt": "1"}, {"dt": "0.5"}, {"dt": "0.25"}, {"dt": "0.1"}, {"dt": "0.2"}]))
-        model["start"] = draw(st.sampled_from(["0", "1", "2.5", "1"]))
-        model["n"] = draw(st.integers(2, 8))
-        consts = [c["name"] for c in model["constants"]]
-        gfs = [a["name"] for a in model["aux"] if a["kind"] == "gf"]
+            fl["eq"] = ["bin", "+", fl["eq"], ["ref", "klag"]]
+            model["n"] = max(3, min(model["n"], 8))
+            consts = [c["name"] for c in model["constants"]]
+            gfs = sorted(model["points"])
+        else:
+            model = draw(c04.sf_strategy(8))
+            if not any(a["kind"] == "gf" for a in model["aux"]):
+                model["aux"].insert(0, {"kind": "gf", "name": "g99", "input": ["time"], "ypts": [0.0, 2.0, 1.0], "xmin": 0.0, "xmax": 4.0})
+                fl = next(a for a in model["aux"] if a["kind"] in ("flow", "biflow"))
+                fl["eq"] = ["bin", "+", fl["eq"], ["ref", "g99"]]
+            model["dt_spec"] = draw(st.sampled_from([{"dt": "1"}, {"dt": "0.5"}, {"dt": "0.25"}, {"dt": "0.1"}, {"dt": "0.2"}]))
+            model["start"] = draw(st.sampled_from(["0", "1", "2.5", "1"]))
+            model["n"] = draw(st.integers(2, 8))
+            consts = [c["name"] for c in model["constants"]]
+            gfs = [a["name"] for a in model["aux"] if a["kind"] == "gf"]
 
         def settings():
             what = draw(st.sampled_from(["none", "none", "empty", "c", "p", "cp", "c"]))
@@ -301,7 +326,7 @@ def case_strategy():
             else:
                 calls.append(["stream", settings()])
         eqs = draw(st.lists(st.integers(0, 20), min_size=1, max_size=5))
-        return {"model": model, "calls": calls, "eqs": eqs, "flat": draw(st.booleans())}
+        return {"model": model, "model_kind": model_kind, "calls": calls, "eqs": eqs, "flat": draw(st.booleans())}
     return build()
 
 
@@ -313,9 +338,10 @@ def _body(ctx):
             return
         kinds = set(c[0] for c in case["calls"])
         sched = _schedule(case)
-        nt = (len(kinds) >= 2 or any(k >= 1 for k, _ in sched)) and (case["model"]["dt_spec"]["dt"] != "1" or case["model"]["start"] != "1")
+        a_ = _abstract(case)
+        nt = (len(kinds) >= 2 or any(k >= 1 for k, _ in sched)) and (a_["dt"] != "1" or a_["start"] != "1")
         labels = ["call:" + k for k in sorted(kinds)] + (["with-settings"] if sched else ["no-settings"])
-        ctx.case({"calls": case["calls"], "eqs": case["eqs"], "flat": case["flat"], "model": SM.sym_show(c04.to_abstract(case["model"]))},
+        ctx.case({"calls": case["calls"], "eqs": case["eqs"], "flat": case["flat"], "model": SM.sym_show(_abstract(case))},
                  nontrivial=nt, labels=labels, key=case)
         ctx.report(vs)
     return body
